@@ -43,6 +43,10 @@ type vfC18Spec struct {
 	Script2 []int `json:"script2,omitempty"`
 	Ticks   int   `json:"ticks"`
 	Bound   int   `json:"bound"`
+	// Workload "" = three deletes recorded beforehand (the selector then asks for lazy mode);
+	// "mixed" = two writes and two reads on a 1 GiB index (the selector asks for incremental
+	// mode, so an evaluation by the monitoring loop starts background rebalancing).
+	Workload string `json:"workload,omitempty"`
 }
 
 func vfC18Names(script []int) string {
@@ -54,10 +58,14 @@ func vfC18Names(script []int) string {
 }
 
 func (s vfC18Spec) id() string {
-	if s.Script2 != nil {
-		return "smart2/" + vfC18Names(s.Script) + "||" + vfC18Names(s.Script2)
+	w := ""
+	if s.Workload != "" {
+		w = "[" + s.Workload + "]"
 	}
-	return "smart/" + vfC18Names(s.Script)
+	if s.Script2 != nil {
+		return "smart2" + w + "/" + vfC18Names(s.Script) + "||" + vfC18Names(s.Script2)
+	}
+	return "smart" + w + "/" + vfC18Names(s.Script)
 }
 
 // vfC18Clock is the injected Clock: the scheduler's virtual time (advances only with ticks).
@@ -65,18 +73,43 @@ type vfC18Clock struct{}
 
 func (vfC18Clock) Now() time.Time { return vtime.Now() }
 
-// vfC18BTree is a stateless fake of the BTreeV2 interface.
-type vfC18BTree struct{}
+// vfC18BTree is a fake of the BTreeV2 interface that records whether background rebalancing
+// is running. Its methods are //go:norace: the fake stands for an index with its own locking,
+// so its bookkeeping must neither be reported by the detector nor add happens-before edges
+// (atomics would) that could hide a race in the code under test.
+type vfC18BTree struct {
+	bgRunning         bool
+	bgStarts, bgStops int
+}
 
-func (vfC18BTree) EnableLazyRebalancing(structures.LazyRebalancingConfig) error               { return nil }
-func (vfC18BTree) EnableIncrementalRebalancing(structures.IncrementalRebalancingConfig) error { return nil }
-func (vfC18BTree) DisableRebalancing() error                                                  { return nil }
-func (vfC18BTree) StartBackgroundRebalancing(context.Context) error                           { return nil }
-func (vfC18BTree) StopBackgroundRebalancing() error                                           { return nil }
-func (vfC18BTree) GetFileSize() uint64                                                        { return 1 << 30 }
+func (*vfC18BTree) EnableLazyRebalancing(structures.LazyRebalancingConfig) error { return nil }
+func (*vfC18BTree) EnableIncrementalRebalancing(structures.IncrementalRebalancingConfig) error {
+	return nil
+}
+func (*vfC18BTree) DisableRebalancing() error { return nil }
+
+//go:norace
+func (b *vfC18BTree) StartBackgroundRebalancing(context.Context) error {
+	b.bgRunning = true
+	b.bgStarts++
+	return nil
+}
+
+//go:norace
+func (b *vfC18BTree) StopBackgroundRebalancing() error {
+	b.bgRunning = false
+	b.bgStops++
+	return nil
+}
+
+//go:norace
+func (b *vfC18BTree) state() (bool, int, int) { return b.bgRunning, b.bgStarts, b.bgStops }
+
+func (*vfC18BTree) GetFileSize() uint64 { return 1 << 30 }
 
 type vfC18Inst struct {
 	sr        *SmartRebalancer
+	bt        *vfC18BTree
 	ext       context.Context
 	extCancel context.CancelFunc
 	results   []string
@@ -88,7 +121,13 @@ type vfC18Inst struct {
 	snap      MetricsSnapshot
 }
 
-const vfC18Pre = 3 // operations recorded before the script starts
+// vfC18PreOps are the operations recorded before the script starts.
+func vfC18PreOps(workload string) []OperationType {
+	if workload == "mixed" {
+		return []OperationType{OpWrite, OpRead, OpWrite, OpRead}
+	}
+	return []OperationType{OpDelete, OpDelete, OpDelete}
+}
 
 func vfC18Model(spec vfC18Spec) (expect []string) {
 	started, ctxSet, ctxCancelled, extCancelled := false, false, false, false
@@ -163,9 +202,15 @@ func vfC18Case(spec vfC18Spec, cur **vfC18Inst) vsched.Case {
 		*cur = in
 		clock := vfC18Clock{}
 		det := NewWorkloadDetector(WithClock(clock), WithMinSampleSize(2), WithWindowSize(time.Minute), WithCapacity(16))
-		in.sr = NewSmartRebalancer(vfC18BTree{}, WithDetector(det), WithRebalancerClock(clock), WithReevalInterval(5*time.Microsecond))
-		for i := 0; i < vfC18Pre; i++ {
-			if err := in.sr.RecordOperation(OpDelete); err != nil {
+		in.bt = &vfC18BTree{}
+		// the selector applies decisions of any confidence at any time: with the default
+		// constraints (confidence >= 0.7, i.e. >= 100 recorded operations, and a 30 s stability
+		// period) no script of this size would ever make the monitoring loop change the mode
+		sel := NewConfigSelector(WithSelectorClock(clock), WithSafetyConstraints(SafetyConstraints{
+			MaxCPUPercent: 50, MaxMemoryMB: 100, MinStabilityPeriod: 0, MinConfidence: 0.01}))
+		in.sr = NewSmartRebalancer(in.bt, WithDetector(det), WithSelector(sel), WithRebalancerClock(clock), WithReevalInterval(5*time.Microsecond))
+		for _, op := range vfC18PreOps(spec.Workload) {
+			if err := in.sr.RecordOperation(op); err != nil {
 				panic(err)
 			}
 		}
@@ -192,10 +237,17 @@ func vfC18Case(spec vfC18Spec, cur **vfC18Inst) vsched.Case {
 		wantEvals := in.evals[0] + in.evals[1] + in.evals[2] + ticks
 		recs := in.recs[0] + in.recs[1] + in.recs[2]
 		if in.final.Started || in.final.TotalEvaluations != wantEvals || in.snap.TotalEvaluations != int64(wantEvals) ||
-			in.snap.TotalOperations != int64(vfC18Pre+recs) {
+			in.snap.TotalOperations != int64(len(vfC18PreOps(spec.Workload))+recs) {
 			fs = append(fs, vsched.Finding{Key: "result-differs-from-sequential/smart:counters", Detail: map[string]any{
 				"started": in.final.Started, "stats_evaluations": in.final.TotalEvaluations, "metrics_evaluations": in.snap.TotalEvaluations,
-				"want_evaluations": wantEvals, "metrics_operations": in.snap.TotalOperations, "want_operations": vfC18Pre + recs}})
+				"want_evaluations": wantEvals, "metrics_operations": in.snap.TotalOperations, "want_operations": len(vfC18PreOps(spec.Workload)) + recs}})
+		}
+		// every start of background rebalancing is matched by a stop: after the final Stop
+		// nothing may be left running (a surplus stop request on an index whose background work
+		// is already stopped is not something the statement forbids)
+		if running, starts, stops := in.bt.state(); running || stops < starts {
+			fs = append(fs, vsched.Finding{Key: "background-rebalancing-outlives-stop@StartBackgroundRebalancing", Detail: map[string]any{
+				"running_after_stop": running, "starts": starts, "stops": stops}})
 		}
 		return fs
 	}
@@ -394,6 +446,19 @@ func TestVerif_C18(t *testing.T) {
 		r.Set("smart_passes_completed_"+vfC18Mode(), pi+1)
 		if pi == 0 {
 			smart2(false)
+			// mixed workload on a large index: an evaluation by the monitoring loop asks for
+			// incremental mode and starts background rebalancing; every body of <= 2 calls and
+			// every body of 3 calls that begins with Start
+			for _, s := range vfC18Scripts(3) {
+				if len(s) == 3+2 && s[0] != vfC18OpSTART {
+					continue
+				}
+				if r.Expired() {
+					r.Cap("time budget: mixed-workload scripts not completed")
+					goto done
+				}
+				d.Run(vfC18Case(vfC18Spec{Script: s, Ticks: ps.ticks, Bound: ps.bound, Workload: "mixed"}, &cur))
+			}
 		}
 	}
 	if r.Thorough() {
